@@ -113,14 +113,14 @@ def _lib():
     return stat_utils
 
 
-def call_blocking(w, e, neql, printQ):
+def call_blocking(w, e, neql, printQ, dtype=float):
     """-> (mean, err, table_lines | None, exception text | None)"""
     su = _lib()
     buf = io.StringIO()
     try:
         with contextlib.redirect_stdout(buf), warnings.catch_warnings(), np.errstate(all="ignore"):
             warnings.simplefilter("ignore")
-            mean, err = su.blocking_analysis(np.array(w, dtype=float), np.array(e, dtype=float), neql=neql,
+            mean, err = su.blocking_analysis(np.array(w, dtype=dtype), np.array(e, dtype=dtype), neql=neql,
                                              printQ=printQ)
     except Exception as ex:                                  # noqa: BLE001 - any exception is an observation
         return None, None, None, f"{type(ex).__name__}: {str(ex)[:160]}"
@@ -132,14 +132,18 @@ def call_blocking(w, e, neql, printQ):
 
 def observe_blocking(w, e, neql, variants):
     """variants: list of dicts {tag, wscale (float, applied to the integer weights), epow (energies are
-    presented as e * 2**-epow), table (bool: use printQ and judge the printed per-block-size table)}"""
+    presented as (e + eshift) * 2**-epow, eshift an integer), table (bool: use printQ and judge the printed
+    per-block-size table)}.  The code's outputs are mapped back exactly (x * 2**epow, mean - eshift): by the
+    property the error bar ignores the added constant and the mean shifts with it."""
     obs = []
     for v in variants:
         ws = np.asarray(w, dtype=float) * v.get("wscale", 1.0)
         k = v.get("epow", 0)
-        es = np.asarray(e, dtype=float) * (2.0 ** -k)
+        sh = int(v.get("eshift", 0))
+        es = (np.asarray(e, dtype=float) + sh) * (2.0 ** -k)
         back = Fraction(2) ** k                        # exact rescaling of the code's outputs to the integer problem
-        mean, err, rows, exc = call_blocking(ws, es, neql, bool(v.get("table")))
+        mean, err, rows, exc = call_blocking(ws, es, neql, bool(v.get("table")),
+                                             dtype=np.int64 if v.get("dtype") == "int" else float)
         o = {"tag": v["tag"], "finite": True, "mean": ZERO_S, "err_none": err is None, "err": ZERO_P,
              "has_table": False, "table": []}
         raw = {"mean": None if mean is None else float(mean), "err": None if err is None else float(err)}
@@ -148,7 +152,7 @@ def observe_blocking(w, e, neql, variants):
             o["err_none"] = True
             raw["exception"] = exc
         else:
-            o["mean"] = rat_signed(Fraction(float(mean)) * back)
+            o["mean"] = rat_signed(Fraction(float(mean)) * back - sh)
             if err is not None:
                 o["err"] = rat_pos(Fraction(float(err)) * back)
             if rows is not None:
@@ -156,7 +160,7 @@ def observe_blocking(w, e, neql, variants):
                 try:
                     for f in rows:
                         tab.append({"b": int(f[0]), "nb": int(f[1]),
-                                    "mean": rat_signed(Fraction(Decimal(f[2])) * back),
+                                    "mean": rat_signed(Fraction(Decimal(f[2])) * back - sh),
                                     "err": rat_pos(Fraction(Decimal(f[3])) * back)})
                     o["has_table"], o["table"] = True, tab
                 except Exception:                          # unparsable / nan in the table
@@ -187,9 +191,12 @@ def observe_outliers(data, col0, m, variants):
     n = data.shape[0]
     obs = []
     for v in variants:
-        d = data.astype(float)
         k, sh = v.get("pow", 0), v.get("shift", 0)
-        d[:, col0] = d[:, col0] * 2.0 ** -k + sh
+        if v.get("dtype") == "int":
+            d = data.copy()
+        else:
+            d = data.astype(float)
+            d[:, col0] = d[:, col0] * 2.0 ** -k + sh
         rows, mask, exc = call_outliers(d, col0, m)
         o = {"tag": v["tag"], "mask": [False] * n, "rows": [], "rows_exact": False}
         raw = {"exception": exc}
@@ -211,13 +218,17 @@ def observe_outliers(data, col0, m, variants):
 
 
 def observe_jackknife(num, den, variants):
-    """variants: {tag, npow, dpow}: num * 2**-npow, den * 2**dpow (floats)"""
+    """variants: {tag, npow, dpow}: num * 2**-npow, den * 2**dpow (floats); dtype "int": the integer-valued
+    samples are passed as an integer ndarray"""
     su = _lib()
     obs = []
     for v in variants:
         a, b = v.get("npow", 0), v.get("dpow", 0)
-        x = np.asarray(num, dtype=float) * 2.0 ** -a
-        y = np.asarray(den, dtype=float) * 2.0 ** b
+        if v.get("dtype") == "int":
+            x, y = np.asarray(num, dtype=np.int64), np.asarray(den, dtype=np.int64)
+        else:
+            x = np.asarray(num, dtype=float) * 2.0 ** -a
+            y = np.asarray(den, dtype=float) * 2.0 ** b
         back = Fraction(2) ** (a + b)
         o = {"tag": v["tag"], "finite": True, "mean": ZERO_S, "sigma": ZERO_P}
         raw = {}
